@@ -114,7 +114,8 @@ def replay(ctx, path):
         return run(ctx)
     with C.Lock():
         C.build_harness(ctx, bins=("impl",))
-    a, b = C.run_impl(ctx, [req])[0], C.run_driver(ctx, [req])[0]
+    hist = (r.get("witness") or {}).get("history") or []     # requests answered before it by the same process
+    a, b = C.run_impl(ctx, hist + [req])[-1], C.run_driver(ctx, hist + [req])[-1]
     print("request:       ", req)
     print("implementation:", a)
     print("model:         ", b)
